@@ -63,6 +63,8 @@ def termsAfter (P : Prog F) (pcEnd : Nat) (term : List Instr) : List Instr :=
   term.filter (fun t => !(decide (P.instrs[pcEnd - 1]? = some t) && decide (t.1 = .endExpression)))
 
 mutual
+/-- `root` is the jump entry of the root the code belongs to; since `{ }` names `cur` (repo commit df89d39) no clause
+looks at it any more — it is kept so that the statements of the layout lemmas stay as they were -/
 def Located (P : Prog F) (root cur : Nat) : Nat → Expr F → Prop
   | pc, .lit v => ∃ k, P.instrs[pc]? = some (.put, some k) ∧ P.consts[k]? = some v
   | pc, .input => P.instrs[pc]? = some (.putValue, none)
@@ -186,7 +188,8 @@ def tailRArms : List (Bool × Expr F × Expr F) → Bool
 end
 
 mutual
-/-- no `{ }` (empty nested expression) -/
+/-- no `{ }` (empty nested expression); no longer part of `wfE` (the builder oddity it excluded is repaired), kept for
+the statements that still mention it -/
 def enFree : Expr F → Bool
   | .emptyNested => false
   | .lit _ | .input | .ident _ | .nested _ => true
@@ -298,7 +301,10 @@ theorem wfE_wfC : ∀ (e : Expr F), wfE e = true → wfC e = true
   | .pair l r, h | .applyTo l r, h | .seq l r, h | .infixApply l _ r, h => by
     simp only [wfE, wfC, Bool.and_eq_true] at h ⊢
     exact ⟨wfE_wfC l h.1, wfE_wfC r h.2⟩
-  | .cond _ l r, h | .and l r, h | .or l r, h | .sideAfter l r, h => by
+  | .cond _ l r, h | .and l r, h | .or l r, h => by
+    simp only [wfE, wfC, Bool.and_eq_true] at h ⊢
+    exact ⟨wfE_wfC l h.1, wfE_wfC r h.2⟩
+  | .sideAfter l r, h => by
     simp only [wfE, wfC, Bool.and_eq_true] at h ⊢
     exact ⟨⟨wfE_wfC l h.1.1, wfE_wfC r h.1.2⟩, h.2⟩
   | .list items, h => by
@@ -317,7 +323,7 @@ theorem wfEArms_wfC : ∀ (l : List (Bool × Expr F × Expr F)), wfEArms l = tru
   | [], _ => rfl
   | (_, c, t) :: rest, h => by
     simp only [wfEArms, wfCArms, Bool.and_eq_true] at h ⊢
-    exact ⟨⟨⟨wfE_wfC c h.1.1.1, wfE_wfC t h.1.1.2⟩, h.1.2⟩, wfEArms_wfC rest h.2⟩
+    exact ⟨⟨wfE_wfC c h.1.1, wfE_wfC t h.1.2⟩, wfEArms_wfC rest h.2⟩
 end
 
 /-! ### reachability of the flat machine -/
